@@ -82,7 +82,7 @@ Contexts ==
   ]
 
 CommentShapes == [marker : {"TODO", "FIXME", "todo"}, assignee : {"", "(bob)", "(a b)"}, sep : {"", ":", " ", " : "},
-                  msg : {"", "x y"}, style : {"line", "block", "doc"}, at : 0..2]
+                  msg : {"", "x y", "@alice", "@", "(see #12", "a@b.c: x"}, style : {"line", "block", "doc"}, at : 0..2]
 NoComment == [marker |-> "", assignee |-> "", sep |-> "", msg |-> "", style |-> "none", at |-> 0]
 
 Init == /\ ctx \in DOMAIN Contexts
